@@ -11,6 +11,7 @@ from ..core import Inconclusive, Result
 from ..simcluster import SimCluster
 
 ID = "C08"
+FILLERS = 90  # ids the first pool instance hands out before the targets get theirs (more than the lane lasts in seconds)
 LEVEL = "exploration"
 RULE = (
     "independent targets (so a row reflects its own job only) with output present/missing; the tracked job of each "
@@ -393,6 +394,9 @@ def run_localpool(case):
         proj.write_workflow(gen.render_workflow(ts))
         with realpool.Pool(proj, ncores=2) as pool:
             env = cli.env_for(None, ())
+            # other clients have used this pool before: it has handed out many more ids than it has been up seconds
+            for _ in range(FILLERS):
+                pool.raw_enqueue("filler", "true", proj.root, time_limit=None, deps=[])
             r = cli.gwf(proj.root, ["run"], env, audit=False)
             if r.rc != 0:
                 res.violation("crash", "gwf -b local run failed", **cli.crash_witness(r))
@@ -439,7 +443,7 @@ def run_localpool(case):
             pool.restart()
             # other clients use the new pool instance: as many tasks as the old instance had handed out
             tid0 = None
-            for _ in range(len(tid) + 2):
+            for _ in range(len(tid) + FILLERS + 40):
                 tid0 = pool.raw_enqueue("unrelated", "sleep 30", proj.root, time_limit=None, deps=[])
             new_ids = set(pool.states())
             res.count("restart_id_overlap", len(new_ids & set(tid.values())))
